@@ -435,6 +435,11 @@ class MatMul(Function):
         if check and not isinstance(b_cols_kind, Scalar):
             raise TypeError("argument 'b_cols' of 'matmul' is not a scalar")
 
+        if not (isinstance(a_kind, Array) and isinstance(b_kind, Array)):
+            # e.g. a scalar that another assignment turns into an array
+            raise UnableToInferKind(
+                    "matmul needs array arguments to infer result kind")
+
         is_real_valued = a_kind.is_real_valued and b_kind.is_real_valued
 
         return (Array(is_real_valued),)
@@ -462,6 +467,11 @@ class Transpose(Function):
             raise TypeError("argument 'a' of 'transpose' is not an array")
         if check and not isinstance(a_cols_kind, Scalar):
             raise TypeError("argument 'a_cols' of 'transpose' is not a scalar")
+
+        if not isinstance(a_kind, Array):
+            # e.g. a scalar that another assignment turns into an array
+            raise UnableToInferKind(
+                    "transpose needs an array argument to infer result kind")
 
         is_real_valued = a_kind.is_real_valued
 
@@ -496,6 +506,11 @@ class LinearSolve(Function):
         if check and not isinstance(b_cols_kind, Scalar):
             raise TypeError("argument 'b_cols' of 'linear_solve' is not a scalar")
 
+        if not (isinstance(a_kind, Array) and isinstance(b_kind, Array)):
+            # e.g. a scalar that another assignment turns into an array
+            raise UnableToInferKind(
+                    "linear_solve needs array arguments to infer result kind")
+
         is_real_valued = a_kind.is_real_valued and b_kind.is_real_valued
 
         return (Array(is_real_valued),)
@@ -522,6 +537,11 @@ class SVD(Function):
             raise TypeError("argument 'a' of 'svd' is not an array")
         if check and not isinstance(a_cols_kind, Scalar):
             raise TypeError("argument 'a_cols' of 'svd' is not a scalar")
+
+        if not isinstance(a_kind, Array):
+            # e.g. a scalar that another assignment turns into an array
+            raise UnableToInferKind(
+                    "svd needs an array argument to infer result kind")
 
         is_real_valued = a_kind.is_real_valued
 
